@@ -235,18 +235,17 @@ def spaces(tier, seed, all_strata=False):
 
 
 # ------------------------------------------------------------------------------------------------ triage
-A_MEANING = {
-    "d3ff0000000000000": "throwing function entered (1)", "d4000000000000000": "try body entered (2)",
-    "d4008000000000000": "native callback entered (3)", "d4010000000000000": "inner native callback entered (4)",
-    "d4034000000000000": "script callback/accessor entered (20)",
-    "dbff0000000000000": "statement after the throw executed (-1)",
-    "dc000000000000000": "code after the throwing expression executed (-2)",
-    "dc008000000000000": "try body continued after the throw (-3)",
-    "dc010000000000000": "code after inner try/finally executed (-4)",
-    "d4054000000000000": "catch entered (80)", "d4051800000000000": "finally ran (70)",
-    "d4051c00000000000": "inner finally ran (71)", "d4056400000000000": "after-try sentinel (89)",
-    "d4056800000000000": "tail sentinel (90)",
-}
+def _d(n):
+    return "d" + struct.pack(">d", float(n)).hex()
+
+
+A_MEANING = {_d(k): "%s (%d)" % (v, k) for k, v in {
+    1: "throwing function entered", 2: "try body entered", 3: "native callback entered",
+    4: "inner native callback entered", 20: "script callback/accessor entered",
+    -1: "statement after the throw executed", -2: "code after the throwing expression executed",
+    -3: "try body continued after the throw", -4: "code after inner try/finally executed",
+    80: "catch entered", 70: "finally ran", 71: "inner finally ran", 89: "after-try sentinel",
+    90: "tail sentinel"}.items()}
 
 
 def _num(s):
@@ -299,7 +298,7 @@ def _kind_a(exp, obs):
     if k:
         return k, "pre"
     i, a, b = _first_diff(le, lo)
-    c80, s89 = "d4054000000000000", "d4056400000000000"
+    c80, s89 = _d(80), _d(89)
     region = "pre"
     if i is not None and s89 in le[:i]:
         region = "post"
@@ -313,7 +312,7 @@ def _kind_a(exp, obs):
         ta, tb = _tag(a), _tag(b)
         if ta and ta == tb:
             return "caught value wrong: %s" % TAG_TEXT.get(ta, ta), "site"
-        if a == c80 and b in ("dbff0000000000000", "dc000000000000000", "dc008000000000000"):
+        if a == c80 and b in (_d(-1), _d(-2), _d(-3)):
             return "no exception raised, execution continues", "site"
         if a == c80 and b == "<end>" and to == "Ethrow":
             return "exception not caught by the handler (escapes as uncaught)", "pre"
